@@ -552,7 +552,8 @@ impl InnerLocustDB {
                 .into_iter()
                 // A concurrent query may already have registered placeholder handles for columns
                 // this partition does not contain; those hold no data and are not persisted.
-                .filter_map(|c| c.try_get().as_ref().cloned())
+                .filter(|c| !c.is_empty())
+                .map(|c| c.try_get().as_ref().unwrap().clone())
                 .collect();
             let (metadata, subpartitions) = subpartition(&self.opts, columns);
             let mut subpartitions_by_last_column = BTreeMap::new();
